@@ -301,6 +301,14 @@ class PyFacts:
             m2 = self.modules.get(mod2)
             if m2 is not None and f"{outer}.{cn}" in m2.classes:
                 return m2.classes[f"{outer}.{cn}"]
+            # the class moved: the module still exports the name (re-export), or exactly one class of the package has it
+            if m is not None and cn in m.imports:
+                r = self.resolve_name(m, cn)
+                if r and r[0] == "class":
+                    return r[1]
+            same = [c for mm in self.modules.values() if not mm.name.startswith("scripts") for k, c in mm.classes.items() if k == cn]
+            if len(same) == 1:
+                return same[0]
             raise AnalysisError(f"anchor class vanished: {qual}")
         return m.classes[cn]
 
@@ -321,9 +329,17 @@ class PyFacts:
         m = self.modules.get(head)
         if m is not None and fn in m.functions:
             return m.functions[fn]
+        if m is not None and fn in m.imports:
+            r = self.resolve_name(m, fn)        # a module-level function that moved and is re-exported
+            if r and r[0] == "func":
+                return r[1]
         try:
             c = self.cls(head)
         except AnalysisError:
+            if m is not None or head in self.modules or not self.modules.get(head.rpartition(".")[0]):
+                same = [f for mm in self.modules.values() if not mm.name.startswith("scripts") for k, f in mm.functions.items() if k == fn]
+                if m is not None and len(same) == 1:
+                    return same[0]
             raise AnalysisError(f"anchor function vanished: {qual}")
         f = c.find_method(fn)
         if f is None:
